@@ -137,3 +137,16 @@ PROPS['C14'] = {
     'assumptions': A_COMMON,
     'not_decided': ['sum over the path / symmetry / zero diagonal as whole-tree facts (A-GRAPH)', 'AvgDistanceMatrix entrywise mean', 'sorted order of rows (sort.Slice less function)', 'floating-point summation order (A-FP)'],
 }
+
+PROPS['C12'] = {
+    'level': 'proof', 'claimed': True,
+    'claim': 'unbounded proof that the real up-pass code computes the Fitch/Hartigan recurrence: computeParsimony (acr and asr, including the aliased call where input and output are the same slice) turns a row of counts into the indicator of its maxima; parsimonyUPPASS (acr, asr) recurses exactly into the neighbours other than the one it came from, adds each child\'s step count exactly once and nothing for the parent side, adds exactly one step per child lacking the kept maximal state, and a tip costs no step. Optimality of that recurrence (Hartigan 1973) is assumed, not proved',
+    'level_note': 'A-HARTIGAN (optimality of the recurrence on multifurcating trees) is a trusted theorem; node identifiers indexing the state table being in range is an unestablished precondition (index safety of states[id] is not claimed); down-pass / DELTRAN / ACCTRAN state sets are not under contract',
+    'packages': ALLPK,
+    'functions': ['acr.computeParsimony', 'asr.computeParsimony',
+                  ('acr.parsimonyUPPASS', {'match': [r'^step', r'^callsite', r'^post']}),
+                  ('asr.parsimonyUPPASS', {'match': [r'^step', r'^callsite']})],
+    'trusted_base': TB_COMMON + ['A-HARTIGAN: the Fitch/Hartigan recurrence yields the minimum number of changes (Hartigan 1973)'],
+    'assumptions': A_COMMON,
+    'not_decided': ['optimality itself; the three clauses about per-node state sets of the second pass; rooting independence (corollary of optimality)', 'site-by-site agreement acr/asr (both are proved against the same recurrence)'],
+}
